@@ -95,17 +95,23 @@ CRASH_CAP = 60
 SKIPPED = "skipped-after-crash-cap"
 # Non-termination: the driver re-arms a watchdog before every library call (WD_CPU seconds of CPU time, 6 x that of wall clock;
 # expiry = FAULT sig=14).  A sanitizer death costs milliseconds, a watchdog death costs WD_CPU seconds, so those have a budget of
-# their own for the WHOLE check: once HANG_BUDGET calls have been killed by the watchdog (each one is reported), every further
-# batch is cut at its first one.  A check must end with a verdict in bounded time.
+# their own for the WHOLE check: once HANG_BUDGET calls have been killed by the watchdog (each one is reported through the
+# caller's crash key <function>:fault-sig14), the batch at hand is cut there and every later run_lines() raises HangStop - the
+# check catches it, reports what it has and ends.  A check must end with a verdict in bounded time.
 WD_CPU = 60; HANG_BUDGET = 24
 _hangs = [0]; _hang_lock = threading.Lock()
+class HangStop(Exception):
+    pass
+def hang_stopped():
+    return _hangs[0] >= HANG_BUDGET
 def set_tier(ctx):
     global WD_CPU, HANG_BUDGET
-    WD_CPU, HANG_BUDGET = (20, 4) if ctx.quick else (60, 24)
+    WD_CPU, HANG_BUDGET = (20, 6) if ctx.quick else (60, 24)
 def run_lines(b, lines, timeout=900, cap=CRASH_CAP):
     """common.batch_run with a cap on dead driver processes: a tree in which every call dies must end in a verdict (the
     crashes already recorded), not in an infrastructure failure.  Lines behind the cap get a result whose kind is SKIPPED
     (Fails.add ignores those)."""
+    if hang_stopped(): raise HangStop()
     res = [None] * len(lines)
     i = 0; crashes = 0; hang_cut = False
     e = {"ASAN_OPTIONS": "detect_leaks=0:abort_on_error=0:detect_stack_use_after_return=1:allocator_may_return_null=1",
@@ -135,7 +141,7 @@ def run_lines(b, lines, timeout=900, cap=CRASH_CAP):
         i = i + k + 1; crashes += 1
         if key[0] in ("fault-sig14", "timeout"):
             with _hang_lock:
-                _hangs[0] += 1; hang_cut = _hangs[0] > HANG_BUDGET
+                _hangs[0] += 1; hang_cut = _hangs[0] >= HANG_BUDGET
     return res
 
 # ------------------------------------------------------------------ TLC partitions
